@@ -114,7 +114,7 @@ theorem EClaim.actor {s s' : State} {e : Event} (hr : Reachable s) (hE : InvE s)
   all_goals (try subst ha)
   all_goals (try (rw [‹s.pc _ = _›] at hc hL))
   all_goals (try (simp only [setPc_pc, upd_same, afterDeadline_pc, afterNotify_pc, childReturn_pc,
-    childWakeNext_pc, freeLoopStart_pc, enterChild_pc, leave_pc, addUser_pc, markCalled_pc,
+    childWakeNext_pc, childScanStart_pc, freeLoopStart_pc, enterChild_pc, leave_pc, addUser_pc, markCalled_pc,
     markFreeing_pc, setAfter_pc, pushObs_pc, publish_pc, delUser_pc, markBorn_pc, allocNote_pc]))
   all_goals (try trivial)
   all_goals (try (exact hc))
@@ -124,6 +124,7 @@ theorem EClaim.actor {s s' : State} {e : Event} (hr : Reachable s) (hE : InvE s)
   all_goals (try (exact EClaim.afterNotifyPc _ _ _))
   all_goals (try (exact hE.claim _))
   all_goals (try (exact EClaim.childWakeNextPc (fun c hc => hE.children _ c (by simpa using hc)) hc))
+  all_goals (try (exact EClaim.childLoopStartPc (fun c hc => hE.children _ c (by simpa using hc)) hc))
   all_goals (try (exact EClaim.freeLoopStartPc (fun c hc => hE.children _ c (by simpa using hc)) _ _))
   · -- a new activation for the child `c`
     rename_i c stk top _ _ _
